@@ -1,129 +1,145 @@
-/* C05 (b) STRETCH: stepwise proof of  r == a b (mod p)  for secp256k1_fe_mul_inner (5x52), relative to the uninterpreted
- * 64x64 multiplier umul of assumed_C05.h.  Statement proved (all inputs accepted by the function's VERIFY_BITS preconditions):
+/* C05 (b) STRETCH (thorough tier): r == a b (mod p) for secp256k1_fe_mul_inner (5x52) RELATIVE TO the uninterpreted 64x64
+ * multiplier umul of assumed_C05.h, by the function's own comment invariants "[d t4 t3 ...] = [p8 ... p0]".
  *
- *      sum_{i,j} umul(a_i, b_j) 2^(52 (i+j))  ==  sum_i r_i 2^(52 i)  +  K p        over the integers, for an explicit K.
+ * LABELLED FALLBACK of DESIGN 5/C05(b): cut points cannot be placed inside /repo code, so they are placed in a harness-side
+ * WITNESS RUN wit_mul() that mirrors the data flow of the function.  wit_mul is not trusted; it must
+ *   (1) produce the same output limbs as the REAL function                                   unit C05.fe_mul_cong_miter
+ *   (2) be explained, step by step, by four bookkeeping rules on the coefficient vector e[0..9] of the bracket notation
+ *       (OBL obligations: after each group of lines every touched bracket entry equals the book)  unit C05.fe_mul_cong_steps
+ * and the four rules are proved, for ARBITRARY coefficient vectors, to change G(e) = sum e_k 2^(52k) as stated   units C05.fe_mul_cong_rule
  *
- * Decomposition (LABELLED FALLBACK of DESIGN 5/C05(b): cut points cannot be put into /repo code, so they are put into a
- * harness-side WITNESS COMPUTATION wit_mul() written from the function's comment invariants "[d t4 t3 ...] = [p8 ... p0]";
- * wit_mul is NOT trusted: it only produces candidate outputs ws[0..4] and the quotient witness K):
- *   unit fe_mul_cong_miter : REAL secp256k1_fe_mul_inner (u128_mul/accum_mul = UF contract) gives r[i] == ws[i] for all i,
- *                            and K < 2^320, ws[i] < 2^64 (so nothing below wraps in 640 bits);
- *   unit fe_mul_cong_steps : Added == V(state) + mulp(K) holds at every cut point of wit_mul, each segment proved from the
- *                            invariant of the previous cut ALONE (state havoc'd and re-assumed), where Added = sum of the column
- *                            sums p_k 2^(52k) added so far and V(state) is the bracket expression of the comment; the last cut
- *                            is Added == sum ws[i] 2^(52i) + mulp(K);
- *   unit fe_mul_cong_sum   : Added at the end (columns in the order the code adds them) == sum_{i,j} umul(a_i,b_j) 2^(52(i+j)).
- * mulp(K) = K 2^256 - K 0x1000003D1 = K p, by shifts.  Each fold uses 2^260 - R = 16 p resp. 2^256 - (R >> 4) = p (constants,
- * asserted).  What stays assumed after this: only that umul IS the machine multiplier (and distributivity
- * (sum a_i 2^52i)(sum b_j 2^52j) = sum a_i b_j 2^(52(i+j)), a paper step). */
+ *   A(k,v)  e_k += v, col_k += v                            G += v 2^(52k)        a product enters column k
+ *   S(k,h)  e_k -= h 2^52, e_(k+1) += h  (and its inverse)  G unchanged           a carry moves one position
+ *   F(k,x)  e_(k+5) -= x, e_k += R x,  K += 16 x 2^(52k)    G -= 16 p x 2^(52k)   2^260 = R + 16 p
+ *   F4(x)   e_4 -= x 2^48, e_0 += (R>>4) x,  K += x         G -= p x              2^256 = (R>>4) + p
+ *
+ * Composition (paper step, an induction over the 60 rule applications of the witness run): starting from e = col = 0, K = 0 the
+ * invariant  sum_k col_k 2^(52k) == G(e) + K p  is preserved by every rule; at the end e = [0 0 0 0 0 r4 r3 r2 r1 r0] and
+ * col_k = sum_{i+j=k} umul(a_i,b_j), hence   sum_{i,j} umul(a_i,b_j) 2^(52(i+j)) == sum r_i 2^(52i) + K p.
+ * What stays assumed: umul IS the machine multiplier, and (sum a_i 2^52i)(sum b_j 2^52j) = sum a_i b_j 2^(52(i+j)). */
+#define C05_UF_AXIOM_FORM 1
 #include "assumed_C05.h"
 #include "src/secp256k1.c"
 #include "post.h"
 
 #if !defined(VERIF_NATIVE) && !defined(USE_FORCE_WIDEMUL_INT64)
-typedef unsigned __CPROVER_bitvector[640] X;
+typedef unsigned __CPROVER_bitvector[256] Y;     /* one coefficient (all real values stay below 2^140) */
+typedef unsigned __CPROVER_bitvector[704] X;     /* whole numbers */
+#define YW(x) ((Y)(x))
 #define XW(x) ((X)(x))
-X nondet_X(void);
-#define U(i, j) XW(SA_UMUL(a[i], b[j]))
-static X mulc(X k) { return (k << 32) + (k << 9) + (k << 8) + (k << 7) + (k << 6) + (k << 4) + k; }   /* k * 0x1000003D1 */
-static X mulR(X k) { return mulc(k) << 4; }                                                              /* k * R, R = 0x1000003D10 */
-static X mulp640(X k) { return (k << 256) - mulc(k); }                                                   /* k * p */
+typedef unsigned __int128 u128_;
+#define UM(i, j) __CPROVER_uninterpreted_umul(a[i], b[j])   /* the 25 products are pure UF atoms; only the products by R, R<<12, R>>4 below are machine products */
+#define RC ((uint64_t)SA_RC)
+Y nondet_Y(void);
 
-/* state of the witness computation */
-typedef struct { X d, c, t3, t4, tx, u0, r0, r1, r2, r3, r4, K; } wst;
-static void havoc(wst *s) { s->d = nondet_X(); s->c = nondet_X(); s->t3 = nondet_X(); s->t4 = nondet_X(); s->tx = nondet_X(); s->u0 = nondet_X();
-    s->r0 = nondet_X(); s->r1 = nondet_X(); s->r2 = nondet_X(); s->r3 = nondet_X(); s->r4 = nondet_X(); s->K = nondet_X(); }
-
-/* CUT(n, V): obligation "invariant n" = Added == V + K p; in the stepwise unit the state is then forgotten and re-assumed */
-#ifdef CONG_STEPS
-# define CUT(n, V) do { __CPROVER_assert(Added == (V) + mulp640(s.K), "C05 fe_mul_inner congruence: invariant " #n " [comment bracket] == [columns added so far] + K p"); \
-                        havoc(&s); __CPROVER_assume(Added == (V) + mulp640(s.K)); } while (0)
+typedef struct { Y e[10]; Y col[10]; X K; } book;
+static void rA(book *g, int k, u128_ v) { g->e[k] += YW(v); g->col[k] += YW(v); }
+static void rS(book *g, int k, Y h) { g->e[k] -= h << 52; g->e[k + 1] += h; }
+static void rSinv(book *g, int k, Y h) { g->e[k + 1] -= h; g->e[k] += h << 52; }
+static void rF(book *g, int k, uint64_t x) { g->e[k + 5] -= YW(x); g->e[k] += YW((u128_)RC * x); g->K += XW(x) << (52 * k + 4); }
+static void rF4(book *g, uint64_t x) { g->e[4] -= YW(x) << 48; g->e[0] += YW((u128_)(RC >> 4) * x); g->K += XW(x); }
+#ifdef CONG_OBL
+# define OBL(k, v, txt) __CPROVER_assert(g.e[k] == (v), "C05 fe_mul_inner congruence, bracket " txt)
 #else
-# define CUT(n, V) do { } while (0)
+# define OBL(k, v, txt) do { } while (0)
 #endif
 
-static X wit_mul(X *ws, X *Kout, const uint64_t *a, const uint64_t *b) {
-    const X M = (XW(1) << 52) - 1, M64 = (XW(1) << 64) - 1;
-    wst s; X Added, x;
-    s.K = 0; s.t3 = s.t4 = s.tx = s.u0 = s.r0 = s.r1 = s.r2 = s.r3 = s.r4 = 0;
-    s.d = U(0,3) + U(1,2) + U(2,1) + U(3,0);                           /* p3 */
-    s.c = U(4,4);                                                      /* p8 */
-    Added = (s.d << 156) + (s.c << 416);
-    CUT(1, (s.c << 416) + (s.d << 156));
-    x = s.c & M64; s.d += mulR(x); s.c >>= 64; s.K += x << (156 + 4);  /* fold c_lo 2^416 = c_lo 2^(260+156) -> c_lo R 2^156 */
-    CUT(2, (s.c << 480) + (s.d << 156));
-    s.t3 = s.d & M; s.d >>= 52;
-    { X p4 = U(0,4) + U(1,3) + U(2,2) + U(3,1) + U(4,0); s.d += p4; Added += p4 << 208; }
-    CUT(3, (s.c << 480) + (s.d << 208) + (s.t3 << 156));
-    x = s.c; s.d += mulR(x) << 12; s.c = 0; s.K += x << (220 + 4);      /* fold c_hi 2^480 = c_hi 2^(260+220) -> c_hi (R<<12) 2^208 */
-    CUT(4, (s.d << 208) + (s.t3 << 156));
-    s.t4 = s.d & M; s.d >>= 52; s.tx = s.t4 >> 48; s.t4 &= (M >> 4);
-    s.c = U(0,0); Added += s.c;                                        /* p0 */
-    { X p5 = U(1,4) + U(2,3) + U(3,2) + U(4,1); s.d += p5; Added += p5 << 260; }
-    CUT(5, (s.d << 260) + (s.tx << 256) + (s.t4 << 208) + (s.t3 << 156) + s.c);
-    s.u0 = s.d & M; s.d >>= 52; s.u0 = (s.u0 << 4) + s.tx; s.tx = 0;
-    CUT(6, (s.d << 312) + (s.u0 << 256) + (s.t4 << 208) + (s.t3 << 156) + s.c);
-    x = s.u0; s.c += mulc(x); s.u0 = 0; s.K += x;                      /* fold u0 2^256 -> u0 (R>>4) */
-    CUT(7, (s.d << 312) + (s.t4 << 208) + (s.t3 << 156) + s.c);
-    s.r0 = s.c & M; s.c >>= 52;
-    { X p1 = U(0,1) + U(1,0); s.c += p1; Added += p1 << 52; }
-    { X p6 = U(2,4) + U(3,3) + U(4,2); s.d += p6; Added += p6 << 312; }
-    CUT(8, (s.d << 312) + (s.t4 << 208) + (s.t3 << 156) + (s.c << 52) + s.r0);
-    x = s.d & M; s.c += mulR(x); s.d >>= 52; s.K += x << (52 + 4);      /* fold d_lo 2^312 = d_lo 2^(260+52) */
-    CUT(9, (s.d << 364) + (s.t4 << 208) + (s.t3 << 156) + (s.c << 52) + s.r0);
-    s.r1 = s.c & M; s.c >>= 52;
-    { X p2 = U(0,2) + U(1,1) + U(2,0); s.c += p2; Added += p2 << 104; }
-    { X p7 = U(3,4) + U(4,3); s.d += p7; Added += p7 << 364; }
-    CUT(10, (s.d << 364) + (s.t4 << 208) + (s.t3 << 156) + (s.c << 104) + (s.r1 << 52) + s.r0);
-    x = s.d & M64; s.c += mulR(x); s.d >>= 64; s.K += x << (104 + 4);   /* fold d_lo64 2^364 = d_lo64 2^(260+104) */
-    CUT(11, (s.d << 428) + (s.t4 << 208) + (s.t3 << 156) + (s.c << 104) + (s.r1 << 52) + s.r0);
-    s.r2 = s.c & M; s.c >>= 52;
-    x = s.d; s.c += mulR(x) << 12; s.d = 0; s.K += x << (168 + 4);      /* fold d_hi 2^428 = d_hi 2^(260+168) -> d_hi (R<<12) 2^156 */
-    s.c += s.t3; s.t3 = 0;
-    CUT(12, (s.t4 << 208) + (s.c << 156) + (s.r2 << 104) + (s.r1 << 52) + s.r0);
-    s.r3 = s.c & M; s.c >>= 52;
-    s.r4 = s.c + s.t4;
-    /* final cut without havoc: this is the statement */
-#if defined(CONG_STEPS) || defined(CONG_MONO)
-    __CPROVER_assert(Added == (s.r4 << 208) + (s.r3 << 156) + (s.r2 << 104) + (s.r1 << 52) + s.r0 + mulp640(s.K),
-                     "C05 fe_mul_inner congruence: [columns p8..p0] == [r4 r3 r2 r1 r0] + K p");
+static void wit_mul(uint64_t *ws, book *out, const uint64_t *a, const uint64_t *b) {
+    const uint64_t M = 0xFFFFFFFFFFFFFULL; u128_ c, d; uint64_t t3, t4, tx, u0, x; book g; int k;
+    for (k = 0; k < 10; k++) { g.e[k] = 0; g.col[k] = 0; } g.K = 0;
+    d = UM(0,3); rA(&g, 3, UM(0,3)); d += UM(1,2); rA(&g, 3, UM(1,2)); d += UM(2,1); rA(&g, 3, UM(2,1)); d += UM(3,0); rA(&g, 3, UM(3,0));
+    c = UM(4,4); rA(&g, 8, UM(4,4));
+    OBL(3, YW(d), "[c 0 0 0 0 d 0 0 0]: d"); OBL(8, YW(c), "[c 0 0 0 0 d 0 0 0]: c");
+    x = (uint64_t)c; d += (u128_)RC * x; c >>= 64; rF(&g, 3, x); rS(&g, 8, YW(c) << 12);
+    OBL(3, YW(d), "[(c<<12) 0 0 0 0 0 d 0 0 0]: d"); OBL(8, 0, "[(c<<12) 0 0 0 0 0 d 0 0 0]: position 8 empty"); OBL(9, YW(c) << 12, "[(c<<12) 0 0 0 0 0 d 0 0 0]: c<<12");
+    t3 = (uint64_t)d & M; d >>= 52; rS(&g, 3, YW(d));
+    OBL(3, YW(t3), "[(c<<12) 0 0 0 0 d t3 0 0 0]: t3"); OBL(4, YW(d), "[(c<<12) 0 0 0 0 d t3 0 0 0]: d");
+    d += UM(0,4); rA(&g, 4, UM(0,4)); d += UM(1,3); rA(&g, 4, UM(1,3)); d += UM(2,2); rA(&g, 4, UM(2,2)); d += UM(3,1); rA(&g, 4, UM(3,1)); d += UM(4,0); rA(&g, 4, UM(4,0));
+    OBL(4, YW(d), "[(c<<12) 0 0 0 0 d t3 0 0 0] = [p8 0 0 0 p4 p3 0 0 0]: d");
+    x = (uint64_t)c; d += (u128_)(RC << 12) * x; rF(&g, 4, x << 12);
+    OBL(4, YW(d), "[d t3 0 0 0] = [p8 0 0 0 p4 p3 0 0 0]: d"); OBL(9, 0, "[d t3 0 0 0]: position 9 empty");
+    t4 = (uint64_t)d & M; d >>= 52; rS(&g, 4, YW(d)); tx = t4 >> 48; t4 &= (M >> 4);
+    OBL(4, YW(t4) + (YW(tx) << 48), "[d t4+(tx<<48) t3 0 0 0]: t4+(tx<<48)"); OBL(5, YW(d), "[d t4+(tx<<48) t3 0 0 0]: d");
+    c = UM(0,0); rA(&g, 0, UM(0,0));
+    d += UM(1,4); rA(&g, 5, UM(1,4)); d += UM(2,3); rA(&g, 5, UM(2,3)); d += UM(3,2); rA(&g, 5, UM(3,2)); d += UM(4,1); rA(&g, 5, UM(4,1));
+    OBL(0, YW(c), "[d t4+(tx<<48) t3 0 0 c] = [p8 0 0 p5 p4 p3 0 0 p0]: c"); OBL(5, YW(d), "[d t4+(tx<<48) t3 0 0 c]: d");
+    u0 = (uint64_t)d & M; d >>= 52; rS(&g, 5, YW(d)); rSinv(&g, 4, YW(u0)); u0 = (u0 << 4) | tx;
+    OBL(4, YW(t4) + (YW(u0) << 48), "[d 0 t4+(u0<<48) t3 0 0 c]: t4+(u0<<48)"); OBL(5, 0, "[d 0 t4+(u0<<48) t3 0 0 c]: position 5 empty"); OBL(6, YW(d), "[d 0 t4+(u0<<48) t3 0 0 c]: d");
+    c += (u128_)u0 * (RC >> 4); rF4(&g, u0);
+    OBL(4, YW(t4), "[d 0 t4 t3 0 0 c]: t4"); OBL(0, YW(c), "[d 0 t4 t3 0 0 c]: c");
+    ws[0] = (uint64_t)c & M; c >>= 52; rS(&g, 0, YW(c));
+    c += UM(0,1); rA(&g, 1, UM(0,1)); c += UM(1,0); rA(&g, 1, UM(1,0));
+    d += UM(2,4); rA(&g, 6, UM(2,4)); d += UM(3,3); rA(&g, 6, UM(3,3)); d += UM(4,2); rA(&g, 6, UM(4,2));
+    OBL(0, YW(ws[0]), "[d 0 t4 t3 0 c r0] = [p8 0 p6 p5 p4 p3 0 p1 p0]: r0"); OBL(1, YW(c), "[d 0 t4 t3 0 c r0]: c"); OBL(6, YW(d), "[d 0 t4 t3 0 c r0]: d");
+    x = (uint64_t)d & M; c += (u128_)x * RC; d >>= 52; rF(&g, 1, x); rS(&g, 6, YW(d));
+    OBL(1, YW(c), "[d 0 0 t4 t3 0 c r0]: c"); OBL(6, 0, "[d 0 0 t4 t3 0 c r0]: position 6 empty"); OBL(7, YW(d), "[d 0 0 t4 t3 0 c r0]: d");
+    ws[1] = (uint64_t)c & M; c >>= 52; rS(&g, 1, YW(c));
+    c += UM(0,2); rA(&g, 2, UM(0,2)); c += UM(1,1); rA(&g, 2, UM(1,1)); c += UM(2,0); rA(&g, 2, UM(2,0));
+    d += UM(3,4); rA(&g, 7, UM(3,4)); d += UM(4,3); rA(&g, 7, UM(4,3));
+    OBL(1, YW(ws[1]), "[d 0 0 t4 t3 c r1 r0] = [p8 p7 p6 p5 p4 p3 p2 p1 p0]: r1"); OBL(2, YW(c), "[d 0 0 t4 t3 c r1 r0]: c"); OBL(7, YW(d), "[d 0 0 t4 t3 c r1 r0]: d");
+    x = (uint64_t)d; c += (u128_)RC * x; d >>= 64; rF(&g, 2, x); rS(&g, 7, YW(d) << 12);
+    OBL(2, YW(c), "[(d<<12) 0 0 0 t4 t3 c r1 r0]: c"); OBL(7, 0, "[(d<<12) 0 0 0 t4 t3 c r1 r0]: position 7 empty"); OBL(8, YW(d) << 12, "[(d<<12) 0 0 0 t4 t3 c r1 r0]: d<<12");
+    ws[2] = (uint64_t)c & M; c >>= 52; rS(&g, 2, YW(c));
+    x = (uint64_t)d; c += (u128_)(RC << 12) * x; rF(&g, 3, x << 12); c += t3;
+    OBL(2, YW(ws[2]), "[t4 c r2 r1 r0]: r2"); OBL(3, YW(c), "[t4 c r2 r1 r0]: c (t3 absorbed)"); OBL(8, 0, "[t4 c r2 r1 r0]: position 8 empty");
+    ws[3] = (uint64_t)c & M; c >>= 52; rS(&g, 3, YW(c));
+    ws[4] = (uint64_t)c + t4;
+    OBL(3, YW(ws[3]), "[r4 r3 r2 r1 r0]: r3"); OBL(4, YW(ws[4]), "[r4 r3 r2 r1 r0]: r4");
+#ifdef CONG_OBL
+    for (k = 5; k < 10; k++) OBL(k, 0, "[r4 r3 r2 r1 r0]: positions 5..9 empty");
+    /* the columns collected by rule A are the column sums of the schoolbook product */
+    { int i, j; Y p[10]; for (k = 0; k < 10; k++) p[k] = 0; for (i = 0; i < 5; i++) for (j = 0; j < 5; j++) p[i + j] += YW(UM(i, j));
+      for (k = 0; k < 10; k++) __CPROVER_assert(g.col[k] == p[k], "C05 fe_mul_inner congruence: column k collected == sum_{i+j=k} umul(a_i,b_j)"); }
+    __CPROVER_assert((g.K >> 330) == 0, "C05 fe_mul_inner congruence: K < 2^330 (nothing wraps in 704 bits)");
 #endif
-    ws[0] = s.r0; ws[1] = s.r1; ws[2] = s.r2; ws[3] = s.r3; ws[4] = s.r4; *Kout = s.K;
-    return Added;
+    *out = g;
 }
 static void get_inputs(uint64_t *a, uint64_t *b) { INPUT_ARR(uint64_t, ia, 5); INPUT_ARR(uint64_t, ib, 5); int i; for (i = 0; i < 5; i++) { a[i] = ia[i]; b[i] = ib[i]; } }
 static int in_ok(const uint64_t *a) { return (a[0] >> 56) == 0 && (a[1] >> 56) == 0 && (a[2] >> 56) == 0 && (a[3] >> 56) == 0 && (a[4] >> 52) == 0; }
+static void uf_axioms(const uint64_t *a, const uint64_t *b) {   /* (B) of assumed_C05.h for the 25 products (the contract's ensures, proved for the real multiplier by C05.umul_axioms) */
+    int i, j; for (i = 0; i < 5; i++) for (j = 0; j < 5; j++) __CPROVER_assume(SA_UMUL_BOUNDS(a[i], b[j]));
+}
 
-/* steps / monolithic: the chain of invariants inside wit_mul (no real code involved; pure bit-vector algebra over the UF atoms) */
+/* (2) the witness run is explained by the rules */
 void h_fe_mul_cong_steps(void) {
-    uint64_t a[5], b[5];
-    X ws[5], K, Added;
+    uint64_t a[5], b[5], ws[5]; book g;
     get_inputs(a, b);
-    __CPROVER_assert((XW(1) << 260) - XW(SA_RC) == mulp640(16) && (XW(1) << 256) - XW(SA_RC >> 4) == mulp640(1), "C05 constants: 2^260 - R == 16 p and 2^256 - (R >> 4) == p");
-    Added = wit_mul(ws, &K, a, b);
-    REACH("witness computation completed");
-    (void)Added;
+    __CPROVER_assume(in_ok(a) && in_ok(b));
+    uf_axioms(a, b);
+    wit_mul(ws, &g, a, b);
+    REACH("witness run completed");
 }
-/* sum: the columns in the order the code adds them are the full schoolbook sum */
-void h_fe_mul_cong_sum(void) {
-    uint64_t a[5], b[5];
-    X ws[5], K, Added, S = 0; int i, j;
-    get_inputs(a, b);
-    Added = wit_mul(ws, &K, a, b);
-    for (i = 0; i < 5; i++) for (j = 0; j < 5; j++) S = S + (U(i, j) << (52 * (i + j)));
-    __CPROVER_assert(Added == S, "C05 fe_mul_inner congruence: columns added == sum_{i,j} umul(a_i,b_j) 2^(52(i+j))");
-    REACH("sum completed");
-}
-/* miter: the REAL function's output equals the witness outputs; the witness quotient is small enough that nothing wraps */
+/* (1) the REAL function computes the witness output */
 void h_fe_mul_cong_miter(void) {
-    uint64_t a[5], b[5];
-    uint64_t r[5]; X ws[5], K; int i;
+    uint64_t a[5], b[5], r[5], ws[5]; book g; int i;
     get_inputs(a, b);
     __CPROVER_assume(in_ok(a) && in_ok(b));
     secp256k1_fe_mul_inner(r, a, b);
-    (void)wit_mul(ws, &K, a, b);
-    for (i = 0; i < 5; i++) __CPROVER_assert(XW(r[i]) == ws[i], "C05 fe_mul_inner congruence: real output limb == witness limb");
-    __CPROVER_assert((K >> 320) == 0, "C05 fe_mul_inner congruence: K < 2^320 (K p and the column sum stay below 2^640: the equation holds over the integers)");
+    wit_mul(ws, &g, a, b);
+    for (i = 0; i < 5; i++) __CPROVER_assert(r[i] == ws[i], "C05 fe_mul_inner congruence: real output limb == witness limb");
     REACH("miter completed");
+}
+/* (3) the rules, for arbitrary books: G(e) = sum e_k 2^(52k) over 704 bits */
+static X G(const Y *e) { X v = 0; int k; for (k = 9; k >= 0; k--) v = (v << 52) + XW(e[k]); return v; }
+static X mulc(X k) { return (k << 32) + (k << 9) + (k << 8) + (k << 7) + (k << 6) + (k << 4) + k; }   /* k * 0x1000003D1 */
+static X mulp832(X k) { return (k << 256) - mulc(k); }                                                   /* k * p */
+void h_fe_mul_cong_rule(void) {
+    book g, g0; INPUT(unsigned, k); INPUT(unsigned, rule); INPUT(uint64_t, x); INPUT(u128_, v); Y h = nondet_Y(); int i;
+    for (i = 0; i < 10; i++) { g.e[i] = nondet_Y(); __CPROVER_assume((g.e[i] >> 150) == 0); g.col[i] = 0; } g.K = 0;
+    __CPROVER_assume((h >> 140) == 0 && rule < 5);
+    g0 = g;
+    __CPROVER_assert((XW(1) << 260) - XW(RC) == mulp832(16) && (XW(1) << 256) - XW(RC >> 4) == mulp832(1), "C05 constants: 2^260 - R == 16 p and 2^256 - (R >> 4) == p");
+    if (rule == 0) { __CPROVER_assume(k <= 9); rA(&g, k, v);
+        __CPROVER_assert(G(g.e) == G(g0.e) + (XW(v) << (52 * k)) && g.K == 0, "C05 rule A: G += v 2^(52k)"); }
+    if (rule == 1) { __CPROVER_assume(k <= 8 && g.e[k] >= (h << 52)); rS(&g, k, h);
+        __CPROVER_assert(G(g.e) == G(g0.e) && g.K == 0, "C05 rule S: G unchanged"); }
+    if (rule == 2) { __CPROVER_assume(k <= 8 && g.e[k + 1] >= h); rSinv(&g, k, h);
+        __CPROVER_assert(G(g.e) == G(g0.e) && g.K == 0, "C05 rule S inverse: G unchanged"); }
+    if (rule == 3) { __CPROVER_assume(k <= 4 && g.e[k + 5] >= YW(x)); rF(&g, k, x);
+        __CPROVER_assert(G(g0.e) == G(g.e) + mulp832(g.K), "C05 rule F: G(before) == G(after) + K p"); }
+    if (rule == 4) { __CPROVER_assume(g.e[4] >= (YW(x) << 48)); rF4(&g, x);
+        __CPROVER_assert(G(g0.e) == G(g.e) + mulp832(g.K), "C05 rule F4: G(before) == G(after) + K p"); }
+    if (rule == 3 && k == 4) REACH("rule F at k = 4");
+    if (rule == 1 && k == 8) REACH("rule S at k = 8");
 }
 #endif
